@@ -2,6 +2,7 @@ import Proofs.C11.Combine
 import Proofs.C11.Roles
 import Proofs.C11.Perm
 import Proofs.C11.Modifiable
+import Proofs.C11.Example
 /-!
 # C11 — PSBT roles are lossless, order-independent, never alias their arguments
 
@@ -34,7 +35,8 @@ theorem unmerged_is_identity (l : Loc) {f : FieldSpec} (hf : specAt l = some f)
   cases hp : f.presence <;> simp_all
 
 /-- T1 lossless: on operands that do not conflict, every key-value pair of every operand, in every
-    field of the generated universe that `serialize` can emit (tx_modifiable excepted: T1m), is in
+    field of the generated universe that `serialize` can emit (tx_modifiable excepted: it is settled by
+    the bit rule, see `combine_modifiable` and `modifiable_bit_rule`), is in
     the result.  Pairs are read as `serialize` reads them (`den (tAt l)`): a falsy scalar of a
     truthiness-serialised field is no pair. -/
 theorem combine_lossless {ps : List Psbt} {r x : Psbt} (hc : Compatible ps) (h : combine ps = .ok r)
@@ -70,6 +72,46 @@ theorem ident_lengths {v : Nat} {p : Psbt} {id : UTx} (h : identOf v p = .ok id)
   split at h
   · cases h
   · cases h; simp
+
+/-- how much of `Compatible.idAgree` is NOT an assumption: whatever `combine` accepts already agrees, at
+    every input and output of the transaction, on the outpoint's txid and the tx version exactly, and on
+    the output index and the amount as the transaction reads them (`or 0`).  What `idAgree` adds is the
+    residue the identifier cannot see: `None` against an explicit `0` in those two fields (both refused
+    by `assert_valid`, which the model does not carry), and locations outside the transaction. -/
+theorem identity_fields_agree {ps : List Psbt} {r : Psbt} (h : combine ps = .ok r) :
+    ∀ a ∈ ps, ∀ b ∈ ps, a.nIn = b.nIn ∧ a.nOut = b.nOut ∧
+      a.slot ⟨.glob, 0, "tx_version"⟩ = b.slot ⟨.glob, 0, "tx_version"⟩ ∧
+      (∀ i < a.nIn, a.slot ⟨.inp, i, "previous_tx_id"⟩ = b.slot ⟨.inp, i, "previous_tx_id"⟩ ∧
+        ((a.slot ⟨.inp, i, "output_index"⟩).int?).getD 0 = ((b.slot ⟨.inp, i, "output_index"⟩).int?).getD 0) ∧
+      (∀ i < a.nOut, ((a.slot ⟨.out, i, "amount"⟩).int?).getD 0 = ((b.slot ⟨.out, i, "amount"⟩).int?).getD 0) := by
+  cases ps with
+  | nil => simp [combine] at h
+  | cons p0 rest =>
+    obtain ⟨id0, hck⟩ := checks_of_combine_ok h
+    intro a ha b hb
+    have ea := (hck a ha).2
+    have eb := (hck b hb).2
+    have hin : a.nIn = b.nIn := by rw [← (ident_lengths ea).1, ← (ident_lengths eb).1]
+    have hout : a.nOut = b.nOut := by rw [← (ident_lengths ea).2, ← (ident_lengths eb).2]
+    unfold identOf unsignedTx at ea eb
+    split at ea
+    · cases ea
+    · split at eb
+      · cases eb
+      · cases ea
+        injection eb with eb
+        injection eb with e1 e2 e3 e4
+        refine ⟨hin, hout, e1.symm, ?_, ?_⟩
+        · intro i hi
+          rw [← hin] at e3
+          have := (List.map_inj_left.mp e3) i (List.mem_range.mpr hi)
+          simp only [txIn, Prod.mk.injEq] at this
+          exact ⟨this.1.symm, this.2.1.symm⟩
+        · intro i hi
+          rw [← hout] at e4
+          have := (List.map_inj_left.mp e4) i (List.mem_range.mpr hi)
+          simp only [txOut, Prod.mk.injEq] at this
+          exact this.1.symm
 
 /-- T2 (tables): what the identifier reads is never settled by the bit rule; an unmerged one is in the
     generated identifier reads; a merged one serialised by truthiness is read only through
@@ -155,9 +197,40 @@ theorem modifiable_bit_rule (a b m : Nat) (h : combinedModifiable [some a, some 
   rw [e]
   exact ⟨pair_mod_left a b, pair_mod_right a b, pair_other_left a b, pair_other_right a b⟩
 
-/-- T2 re-bracketing: combining a partial result with further operands is combining all of them at
-    once, slot for slot (exactly, no proviso) — whenever the three combines are accepted (acceptance of
-    every bracketing is compared on the real code by the `combine.orders` oracle). -/
+/-- T1m: what `combine` leaves in tx_modifiable is exactly `_combined_tx_modifiable` of ALL the operands'
+    flags (so `modifiable_bit_rule` speaks of the combined psbt itself). -/
+theorem combine_modifiable {p0 r : Psbt} {rest : List Psbt} (h : combine (p0 :: rest) = .ok r) :
+    r.slot modLoc = modSlot (combinedModifiable ((p0 :: rest).map fun p => (p.slot modLoc).nat?)) := by
+  obtain ⟨_, _, hM⟩ := tables_ok
+  have hMod : ruleAt modLoc = some .modifiable := by simpa [modifiableIsAssigned] using hM
+  rw [combine_ok_fold h, foldl_step_slot, foldl_keep (Or.inr hMod)]
+  simp [baseOf, setSlot]
+
+/-- T2 for tx_modifiable, composed with `combine`: two accepted orders leave the same flags. -/
+theorem combine_perm_modifiable {ps ps' : List Psbt} {r r' : Psbt} (hp : ps.Perm ps')
+    (h : combine ps = .ok r) (h' : combine ps' = .ok r') : r'.slot modLoc = r.slot modLoc := by
+  cases ps with
+  | nil => simp [combine] at h
+  | cons p0 rest =>
+    cases ps' with
+    | nil => simp [combine] at h'
+    | cons p0' rest' =>
+      rw [combine_modifiable h, combine_modifiable h']
+      congr 1
+      exact (modifiable_perm (hp.map _)).symm
+
+/-- T2 re-bracketing — what IS proved: IF the inner combine, the outer combine and the flat combine are
+    all three accepted, the nested result equals the flat one slot for slot (exactly, no proviso on the
+    operands).  Together with `combine_perm` (every order of the FLAT operand list is accepted or refused
+    alike, with one result) this is the whole of the order/grouping statement.
+    What is NOT proved, and is FALSE of the model and of btclib alike: that acceptance does not depend on
+    the grouping.  Since `combine` re-checks the identifier of what it built, a part of the operands can
+    make every requiring input carry a height (BIP370 then picks the height) although the whole never
+    does: `combine [a,b,c]`, `a(bc)`, `(ac)b` are accepted and `combine [combine [a,b], c]` is refused
+    half way.  Counterexample on the model: the `example` after this theorem; on the real code: known
+    finding `combine.locktime-partition.grouping` (harness oracle `finding.locktime-grouping`).  `combine`
+    is therefore commutative and idempotent on compatible operands, and associative only where every
+    intermediate combine is accepted. -/
 theorem combine_bracket {p0 r s s' : Psbt} {rest l2 : List Psbt}
     (h1 : combine (p0 :: rest) = .ok r) (h2 : combine (r :: l2) = .ok s)
     (h3 : combine (p0 :: (rest ++ l2)) = .ok s') (l : Loc) (hl : ruleAt l ≠ some .modifiable) :
@@ -168,6 +241,12 @@ theorem combine_bracket {p0 r s s' : Psbt} {rest l2 : List Psbt}
   rw [combine_ok_fold h1] at h2
   rw [combine_ok_fold h2, combine_ok_fold h3]
   simp only [foldl_step_slot, baseOf_slot hne, List.foldl_append]
+
+/-- associativity of ACCEPTANCE is false: three psbts of one version-2 transaction (same identifier, lock
+    time T, no conflicting field) — all at once accepted, `b,c` first accepted, `a,b` first refused. -/
+example : (identOf 2 lkA = identOf 2 lkB ∧ identOf 2 lkB = identOf 2 lkC) ∧
+    (combine [lkA, lkB, lkC]).toBool = true ∧ (combine [lkB, lkC]).toBool = true ∧
+    (combine [lkA, lkB]).toBool = false := by decide
 
 /-- T2 idempotence: combining a psbt with itself changes nothing. -/
 theorem combine_idem {x : Psbt} {id0 : UTx} (hx : Operand x) (hid : identOf x.version x = .ok id0)
@@ -274,7 +353,16 @@ example : mergeTruthy (.scalar (some (.int 0))) (.scalar none) ≠ mergeTruthy (
   decide
 example : lookupRule Gen.Combine.inCalls "sig_hash_type" = some .notNone := by decide
 
--- non-vacuity of T1/T2's hypotheses: two signers' copies, disjoint signatures
+-- non-vacuity on whole psbts: two signers' copies of one psbt are `Compatible`, `combine` accepts them,
+-- and (T1 instantiated) both signatures are in the result
+example : Compatible [exA, exB] := example_compatible
+example : ((combine [exA, exB]).toOption.map (·.slot sigLoc)) = some (.dict [(1, .bytes [1]), (2, .bytes [2])]) := by
+  decide
+example (r : Psbt) (h : combine [exA, exB] = .ok r) : den (tAt sigLoc) (r.slot sigLoc) 2 = some (.bytes [2]) :=
+  combine_lossless example_compatible h (x := exB) (by simp) sigLoc specAt_sigLoc (by decide) (by decide) 2 _
+    (by decide)
+
+-- the same at one slot
 example : mergeTruthy (.dict [(1, .bytes [1])]) (.dict [(2, .bytes [2])]) = .dict [(1, .bytes [1]), (2, .bytes [2])] := by
   decide
 example : Compat true (.dict [(1, .bytes [1])]) (.dict [(2, .bytes [2])]) := by
@@ -315,7 +403,8 @@ example : lockTimeOf [(none, none)] (some 7) = .ok 7 := by decide
 
 /-- T6 (soundness of the structural check): an accepted answer is of the request's version and
     transaction; every field of every input and output map that is not a signature field came back as
-    sent; every signature field only gained entries. -/
+    sent; every signature field only gained entries; the answer's tx_modifiable is the bit rule of the two
+    (so, by `modifiable_bit_rule`, no more permissive than the request's). -/
 theorem sigOnly_sound {req ret : Psbt} (h : sigOnly req ret = true) :
     ret.version = req.version ∧ unsignedTx ret false = unsignedTx req false ∧
     (∀ i < req.nIn, ∀ f ∈ fieldsOf .inp,
@@ -323,11 +412,12 @@ theorem sigOnly_sound {req ret : Psbt} (h : sigOnly req ret = true) :
       (Gen.Combine.signatureFields.contains f.name = true →
         addedOnly (req.slot ⟨.inp, i, f.name⟩) (ret.slot ⟨.inp, i, f.name⟩) = true)) ∧
     (∀ i < req.nOut, ∀ f ∈ fieldsOf .out, ret.slot ⟨.out, i, f.name⟩ = req.slot ⟨.out, i, f.name⟩) ∧
-    (∀ n ∈ Gen.Combine.sigOnlyGlobals, ret.slot ⟨.glob, 0, n⟩ = req.slot ⟨.glob, 0, n⟩) := by
+    (∀ n ∈ Gen.Combine.sigOnlyGlobals, ret.slot ⟨.glob, 0, n⟩ = req.slot ⟨.glob, 0, n⟩) ∧
+    ret.slot modLoc = modSlot (combinedModifiable [(req.slot modLoc).nat?, (ret.slot modLoc).nat?]) := by
   unfold sigOnly at h
   simp only [Bool.and_eq_true] at h
-  obtain ⟨⟨⟨⟨⟨⟨hv, htx⟩, _⟩, hg⟩, _⟩, hin⟩, hout⟩ := h
-  refine ⟨by simpa using hv, by simpa using htx, ?_, ?_, ?_⟩
+  obtain ⟨⟨⟨⟨⟨⟨hv, htx⟩, _⟩, hg⟩, hm⟩, hin⟩, hout⟩ := h
+  refine ⟨by simpa using hv, by simpa using htx, ?_, ?_, ?_, (by have := hm; simp at this; exact this.symm)⟩
   rotate_left 2
   · intro n hn
     have := List.all_eq_true.mp hg n hn
